@@ -36,6 +36,7 @@ void hook(const char* dir, int kind, const char* name, void* ptr, void* state);
 #endif
 #include "trace.hpp"
 
+#include <cstring>
 #include <fstream>
 #include <iostream>
 #include <map>
@@ -139,6 +140,17 @@ static tainted<long, Sbx> cb(RS& sandbox, tainted<long, Sbx> tnode)
     return tainted<long, Sbx>(-1); // argument did not arrive intact; already visible in cb_run.node
   }
   const Node& n = nodes[node];
+  if (node % 2 == 1) {
+    // callbacks of odd nodes change the per-sandbox transition state while they run
+    static const char* LABELS[2][2] = { { "s1", "s1*" }, { "s2", "s2*" } };
+    int si = sb_name(&sandbox) == "s1" ? 0 : 1;
+    const char* curl = static_cast<const char*>(sandbox.get_transition_state());
+    const char* nxt = (std::strcmp(curl, LABELS[si][0]) == 0) ? LABELS[si][1] : LABELS[si][0];
+    sandbox.set_transition_state((void*)nxt);
+    tr::Ev e("setstate");
+    e.str("s", SB_NAMES[si]).str("state", nxt);
+    out.put(e);
+  }
   for (int k : n.kids) {
     do_invoke(k);
   }
@@ -377,7 +389,7 @@ int main(int argc, char** argv)
 #else
         sb[i]->create_sandbox();
 #endif
-        sb[i]->set_transition_state((void*)SB_NAMES[i]);
+        sb[i]->set_transition_state((void*)SB_NAMES[i]); // same literal as LABELS[i][0] (merged by the compiler)
         sb[i]->clear_transition_times();
         sb_by_ptr[sb[i].get()] = SB_NAMES[i];
       }
